@@ -185,10 +185,11 @@ fn enc_w_hex_odd_digit() {
 fn hex_roundtrip<const L: usize, const L2: usize>() {
     let d: [u8; L] = kani::any();
     let e = encode(&d, &StreamFilter::ASCIIHexDecode).unwrap();      // public dispatcher -> encode_hex
-    assert!(e.len() == L2);
-    let mut ea = [0u8; L2];
+    // two digits per byte; an encoder may also append the EOD marker '>' or a line break (both legal), so leave room
+    assert!(e.len() >= 2 * L && e.len() <= L2);
+    let mut ea = [b' '; L2];
     let mut i = 0;
-    while i < L2 { ea[i] = e[i]; i += 1; }
+    while i < e.len() { ea[i] = e[i]; i += 1; }
     // independent reference decoder accepts it with the same result
     let want = hex_ref(&ea);
     assert!(matches!(&want, Some((n, w)) if *n == L && same(&w[..L], &d)));
@@ -198,13 +199,13 @@ fn hex_roundtrip<const L: usize, const L2: usize>() {
 }
 #[kani::proof]
 #[kani::stub(std::fmt::format, nofmt)]
-fn enc_hex_roundtrip_l1() { hex_roundtrip::<1, 2>() }
+fn enc_hex_roundtrip_l1() { hex_roundtrip::<1, 4>() }
 #[kani::proof]
 #[kani::stub(std::fmt::format, nofmt)]
-fn enc_hex_roundtrip_l2() { hex_roundtrip::<2, 4>() }
+fn enc_hex_roundtrip_l2() { hex_roundtrip::<2, 6>() }
 #[kani::proof]
 #[kani::stub(std::fmt::format, nofmt)]
-fn enc_hex_roundtrip_l3() { hex_roundtrip::<3, 6>() }
+fn enc_hex_roundtrip_l3() { hex_roundtrip::<3, 8>() }
 
 // ------------------------------------------------------------------------------------------------
 // ASCII85
@@ -354,7 +355,7 @@ fn a85_enc_vs_refdec<const N: usize, const L: usize, const O: usize>() {
     while i < e.len() { ea[i] = e[i]; i += 1; }
     assert!(ea[e.len() - 2] == b'~' && ea[e.len() - 1] == b'>');
     let mut k = 0;
-    while k + 2 < e.len() { assert!((ea[k] >= 0x21 && ea[k] <= 0x75) || ea[k] == b'z'); k += 1; }
+    while k + 2 < e.len() { assert!((ea[k] >= 0x21 && ea[k] <= 0x75) || ea[k] == b'z' || ws_ref(ea[k])); k += 1; }
     let want = a85_ref::<L, O>(&ea);
     assert!(matches!(&want, Some((n, w)) if *n == N && same(&w[..N], &d)));
     std::mem::forget(e);
